@@ -192,7 +192,7 @@ class Check(PropertyCheck):
     level = 'proof'
     rule = ('real astropy.wcs.WCS: TAN/SIN x linear part encoded as PC+CDELT(-s,s) / full CD matrix / parity flip inside PC with positive CDELT / CROTA2+CDELT (the same transformation) x rotation -180..180 deg x scale 1e-5..1e-2 deg/pix (log-uniform) x standard parity x '
             'ICRS/FK5/Galactic x reference |lat|<85; circle/ellipse/rectangle/circle-, ellipse-, rectangle-annulus sky regions with sizes '
-            'of 1-50 pixels, any angle in deg/rad/arcmin/hourangle, sizes in arcsec/arcmin/deg, centres within min(300 px, 1 deg) of the '
+            'of 1-50 pixels, any angle in deg/rad/arcmin/hourangle, every size independently in arcsec/arcmin/deg/mas/rad/hourangle, centres within min(300 px, 1 deg) of the '
             'reference pixel (beyond 1 deg off-axis a TAN/SIN projection is not a similarity to 1e-3: radial/tangential scales differ by theta^2/2). '
             'HISTORY MODE (40% of the cases): the region object is first built with other parameters and/or the WCS object with other settings, converted / queried once, then every parameter is re-assigned through the public setters and/or the WCS is edited in place (crval/crpix/cdelt/pc + set()), the first result is mutated by the caller, and only then the compared conversion is made; the model and the oracle know only the final parameters and the final WCS; two successive results must not share PixCoord/meta/visual objects. '
             'Oracle: SkyCoord.directional_offset_by + wcs.world_to_pixel only. Non-trivial = every case (a sized region with 4-8 end points).')
